@@ -132,3 +132,15 @@ Definition hmc_eval_q (logp : list Q -> Q) (grad : list Q -> list Q) (eps : Q) (
 Definition hmc_step_eval_q (logp : list Q -> Q) (grad : list Q -> list Q) (eps : Q) (L : nat)
     (xs ps : list (list Q)) (lnus : list Q) : list Z :=
   concat (map qouts (hmc_step numQ logp grad eps L xs ps lnus)).
+
+(* ---- draw discipline of HMC::step: one generator per sampler; step s takes n*d standard normals (momenta,
+   row-major: chain r, coordinate j) and then n uniforms (one per chain), nothing else.  `events` is the
+   sequence of values such a generator yields (replayed by the harness from an identically seeded one);
+   output: per step the momenta then the uniforms the model says the step used ---- *)
+Definition hmc_mom_idx (n d s r j : nat) : nat := s * (n * d + n) + r * d + j.
+Definition hmc_uni_idx (n d s r : nat) : nat := s * (n * d + n) + n * d + r.
+Definition hmc_draws_eval (n d k : nat) (events : list Z) : list Z :=
+  concat (map (fun s =>
+                 concat (map (fun r => map (fun j => nth (hmc_mom_idx n d s r j) events (-1)%Z) (seq 0 d)) (seq 0 n))
+                 ++ map (fun r => nth (hmc_uni_idx n d s r) events (-1)%Z) (seq 0 n))
+              (seq 0 k)).
